@@ -4,9 +4,19 @@
    Proved (on the model of the string codec, Strings.v, and of compact's escaping, Text.html_escape):
    EscapeHTML only changes the spelling — what every string and member name denotes is unchanged —
    and with EscapeHTML on no < > & U+2028 U+2029 is written raw.
-   Open obligations (compared on every run): well-formedness of whole outputs (parse ∘ print),
-   ApplyIndent = Indent ∘ Apply through the scanner loop, byte-identity under passing tests. *)
-From JP Require Import Bytes Json Text Strings Den ImplV5 Codec.
+   Proved on the output BYTES (OutputFacts.v): every successful result of Apply / ApplyIndent (v5) for
+   EVERY parsed document, EVERY decoded patch and every options record is a tree of tokens the
+   independent reader accepts; if the result is nested no deeper than the reader's limit (the one
+   hypothesis: a decoded copy can nest the result deeper, C15_nesting_hypothesis_needed; it holds
+   for the empty patch) the bytes are one well-formed JSON text, read back as the value of that
+   tree, accepted by the scanner, and ApplyIndent's bytes are exactly Indent of Apply's bytes.  In
+   the domain of the simulation (C01) the value read back IS the RFC 6902 result and the nesting
+   hypothesis is one on that result.  MergePatch, MergeMergePatches and CreateMergePatch: every
+   successful result is a well-formed JSON text, no hypothesis at all (their results are never
+   nested deeper than their inputs).
+   Open obligations (compared on every run): byte-identity under passing tests. *)
+From JP Require Import Bytes Json Text Strings Den Pointer Rfc6902 ImplV5 Domain ImplFacts RefFacts Codec ApplySim.
+From JP Require Import ImplMerge Scan PrintParse OutputFacts.
 From JP.gen Require Import TablesGen.
 
 (* escaping a string body never changes the string it denotes *)
@@ -47,6 +57,103 @@ Theorem C15_tables : forall c, tbl htmlSafeSet c = true ->
   tbl safeSet c = true /\ c <> x3c /\ c <> x3e /\ c <> x26.
 Proof. intros c H. destruct c; vm_compute in H; try discriminate; repeat split; try reflexivity; discriminate. Qed.
 Print Assumptions C15_tables.
+
+(* ---- the output bytes of Apply / ApplyIndent ---- *)
+(* EVERY parsed document, EVERY patch whose values are made of tokens the reader accepts (every
+   decoded patch: C15_decoded_patch_values), every options record, every indent.  tr is the tree
+   Apply encodes (OutputFacts.result_tree); the result bytes are its compact or indented text; it is
+   made of well-formed string bodies and complete number literals (tok) and is an object, an array or
+   null; if it is nested within the reader's limit: with a white-space indent (or none) the bytes
+   are read back as tr with its strings escaped as EscapeHTML says, the scanner accepts them, the
+   value read is the value of tr; and for a non-empty indent the bytes are exactly Indent (the loop
+   over the translated scanner) of the bytes Apply returns *)
+Theorem C15_apply_output_wellformed : forall o indent p doc t out,
+  parse doc = Some t -> Forall op_tok p -> api_apply o indent p doc = ROut out ->
+  exists tr, result_tree o p t = Some tr /\ out = output o indent tr /\ tok tr /\ root_shape tr /\
+    ((Text.tdepth tr <= max_depth)%N ->
+       (wsb indent = true ->
+          parse out = Some (escape_tree (o_esc o) tr) /\ valid_gen out = true /\
+          exists t', parse out = Some t' /\ den t' = den tr) /\
+       (indent <> [] -> exists out0, api_apply o [] p doc = ROut out0 /\ indent_go indent out0 = Some out)).
+Proof. exact api_apply_output_general. Qed.
+Print Assumptions C15_apply_output_wellformed.
+
+Theorem C15_decoded_patch_values : forall bs p, api_decode bs = Some p -> Forall op_tok p.
+Proof. exact api_decode_tok. Qed.
+Print Assumptions C15_decoded_patch_values.
+
+Theorem C15_apply_output_decoded : forall o indent patch p doc t out,
+  api_decode patch = Some p -> parse doc = Some t -> wsb indent = true ->
+  api_apply o indent p doc = ROut out ->
+  exists tr, result_tree o p t = Some tr /\ out = output o indent tr /\
+    ((Text.tdepth tr <= max_depth)%N -> valid_gen out = true /\ exists t', parse out = Some t' /\ den t' = den tr).
+Proof. exact api_apply_output_decoded. Qed.
+Print Assumptions C15_apply_output_decoded.
+
+(* the empty patch: no hypothesis on the nesting *)
+Theorem C15_apply_output_empty_patch : forall o indent doc t out,
+  parse doc = Some t -> wsb indent = true -> api_apply o indent [] doc = ROut out ->
+  valid_gen out = true /\ exists t', parse out = Some t'.
+Proof. exact api_apply_output_nil. Qed.
+Print Assumptions C15_apply_output_empty_patch.
+
+(* in the domain of the simulation (C01): the bytes are a JSON text whose value IS the RFC 6902 result,
+   provided that result is nested within the reader's limit; ApplyIndent = Indent of Apply *)
+Theorem C15_apply_output_is_rfc_result : forall o indent p doc t,
+  plain_opts o -> parse doc = Some t -> root_container t = true -> tnodup t = true ->
+  Forall op_dom p -> Forall op_tok p ->
+  copies_fit (dia o) (den t) (map den_op p) = true ->
+  wsb indent = true ->
+  match rfc_apply (dia o) (den t) (map den_op p) with
+  | Done j =>
+      (odepth j <= max_depth)%N ->
+      exists out t', api_apply o indent p doc = ROut out /\ parse out = Some t' /\ den t' = j /\ valid_gen out = true /\
+        (indent <> [] -> exists out0, api_apply o [] p doc = ROut out0 /\ indent_go indent out0 = Some out)
+  | Failed i cz => exists e, api_apply o indent p doc = RErr (Some i) e /\ cause_rel cz e
+  end.
+Proof. exact api_apply_output_sim. Qed.
+Print Assumptions C15_apply_output_is_rfc_result.
+
+(* the invariant behind it, for arbitrary operations, paths and options: the raw messages stored in
+   the document stay made of tokens the reader accepts *)
+Theorem C15_engine_keeps_tokens : forall o p i st st',
+  stok st -> Forall op_tok p -> apply_from o i st p = AOk st' -> ntok (root_node (s_root st')).
+Proof. exact apply_from_ntok. Qed.
+Print Assumptions C15_engine_keeps_tokens.
+
+(* member names are written as bodies the reader accepts whatever bytes they hold *)
+Theorem C15_any_name_is_written_wellformed : forall esc s, body_ok (quote esc s).
+Proof. exact body_ok_quote. Qed.
+Print Assumptions C15_any_name_is_written_wellformed.
+
+(* the nesting hypothesis is needed: a document nested 10000 deep and a decoded copy *)
+Theorem C15_nesting_hypothesis_needed :
+  match api_decode (B "[{""op"":""copy"",""from"":""/a"",""path"":""/b/-""}]") with
+  | Some p =>
+      match api_apply (ex_opts true) [] p ex_deep_doc with
+      | ROut out => parse out = None /\ parse ex_deep_doc <> None
+      | _ => False
+      end
+  | None => False
+  end.
+Proof. exact ex_result_too_deep. Qed.
+Print Assumptions C15_nesting_hypothesis_needed.
+
+(* the empty document is the one input for which Apply's result is not a JSON text *)
+Theorem C15_empty_document : forall o indent p, api_apply o indent p [] = ROut [] /\ parse [] = None.
+Proof. exact api_apply_empty_doc. Qed.
+Print Assumptions C15_empty_document.
+
+(* ---- MergePatch, MergeMergePatches, CreateMergePatch: every successful result is a JSON text ---- *)
+Theorem C15_merge_output_wellformed : forall mm doc patch out,
+  api_merge mm doc patch = MOut out -> valid_gen out = true.
+Proof. exact api_merge_output_valid. Qed.
+Print Assumptions C15_merge_output_wellformed.
+
+Theorem C15_create_output_wellformed : forall a b out,
+  api_create a b = MOut out -> exists t', parse out = Some t' /\ valid_gen out = true.
+Proof. exact api_create_output_general. Qed.
+Print Assumptions C15_create_output_wellformed.
 
 Example C15_nonvacuous :
   match api_decode (B "[{""op"":""add"",""path"":""/k<"",""value"":""a&b""}]") with
